@@ -153,6 +153,11 @@ class Prop:
             if all(x[0] != ti for x in ctor):
                 ctor.append([ti, c.choice(VALID[traits[ti]["kind"]])])
         nops = c.choice([5, 8, 12, 20, 30, 40])
+        # the object may be an instance of a subclass (or sub-subclass) that inherits
+        # the static handlers and may override one of them
+        subclass = c.choice([0, 0, 1, 1, 2])
+        override = (c.randrange(len(static)) if (static and subclass and c.random() < 0.5)
+                    else None)
         fault_rate = c.choice([0.0, 0.0, 0.1, 0.25])
         policy = c.choice(["fifo", "lifo"])
         handler_ids = ([s["id"] for s in static] + ([any_h["id"]] if any_h else [])
@@ -201,7 +206,8 @@ class Prop:
             ops.append(op)
         return {"prop": ID, "seed": seed,
                 "config": {"traits": traits, "static": static, "any": any_h, "dec": dec,
-                           "dyn": dyn, "ctor": ctor, "policy": policy},
+                           "dyn": dyn, "ctor": ctor, "policy": policy, "subclass": subclass,
+                           "override": override},
                 "ops": ops}
 
     # ------------------------------------------------------------------ world
@@ -239,7 +245,20 @@ class Prop:
             else:
                 ns["_dec%d" % j] = observe(tn, post_init=d["post_init"])(
                     mk_dec_obs(d["id"], H, "_dec%d" % j))
-        return type(HasTraits)("SimC02", (HasTraits,), ns)
+        cls = type(HasTraits)("SimC02", (HasTraits,), ns)
+        for level in range(cfg.get("subclass") or 0):
+            sub_ns = {}
+            ov = cfg.get("override")
+            if level == 0 and ov is not None and ov < len(cfg["static"]):
+                # the subclass overrides one static handler: only the override may run
+                sdef = cfg["static"][ov]
+                t = cfg["traits"][sdef["trait"]]
+                tn = t["name"]
+                suffix = "_fired" if (t["kind"] in ("Event", "Button") and sdef.get("fired")) \
+                    else "_changed"
+                sub_ns["_%s%s" % (tn, suffix)] = mk_static(sdef["id"] + "_ov", sdef["arity"], H, tn)
+            cls = type(HasTraits)("SimC02Sub%d" % level, (cls,), sub_ns)
+        return cls
 
     # ------------------------------------------------------------------ execution
     def execute(self, trace, env):
@@ -299,8 +318,14 @@ class Prop:
         listeners = []
         # ---- per-handler applicability
         applies = {}      # hid -> set of trait indices
-        for s in cfg["static"]:
-            applies[s["id"]] = {s["trait"]}
+        ov = cfg.get("override") if cfg.get("subclass") else None
+        static_ids = []
+        for j, s in enumerate(cfg["static"]):
+            hid = s["id"] + "_ov" if (ov is not None and j == ov) else s["id"]
+            static_ids.append(hid)
+            applies[hid] = {s["trait"]}
+            if hid != s["id"]:
+                applies[s["id"]] = set()        # the overridden base handler must never run
         if cfg.get("any"):
             applies[cfg["any"]["id"]] = set(range(len(traits)))
         for d in cfg["dec"]:
@@ -308,7 +333,7 @@ class Prop:
         dyn = {d["id"]: d for d in cfg["dyn"]}
         for d in cfg["dyn"]:
             applies[d["id"]] = set(range(len(traits))) if d["trait"] is None else {d["trait"]}
-        active = {s["id"] for s in cfg["static"]}
+        active = set(static_ids) | {s["id"] for s in cfg["static"]}
         if cfg.get("any"):
             active.add(cfg["any"]["id"])
         for d in cfg["dec"]:
@@ -513,6 +538,10 @@ class Prop:
         for (origin, ti, old, new, changed, act) in expected:
             exp_keys.setdefault(origin, set()).add(tnames[ti])
         for rec in records:
+            if rec["h"] in applies and not applies[rec["h"]]:
+                raise Violation("C02.overridden-handler-called",
+                                "static handler %s is overridden in the subclass but was called "
+                                "(op %d)" % (rec["h"], rec["origin"]), rec["origin"])
             names_ok = exp_keys.get(rec["origin"], set())
             if rec["name"] is MISSING:
                 if not names_ok:
